@@ -1,6 +1,7 @@
 package props
 
 import (
+	"unicode"
 	"fmt"
 	"sort"
 	"strings"
@@ -259,7 +260,7 @@ func genTagQuery(r *core.Rand, present []ref.Tag) (ref.Tag, string) {
 	if t.Value != "" {
 		plain := true
 		for _, c := range t.Value {
-			if !(c == '_' || c == '-' || (c >= '0' && c <= '9') || (c >= 'a' && c <= 'z') || (c >= 'A' && c <= 'Z') || c > 127) {
+			if !(c == '_' || c == '-' || (c >= '0' && c <= '9') || (c >= 'a' && c <= 'z') || (c >= 'A' && c <= 'Z') || (c > 127 && unicode.IsLetter(c))) { // what an unquoted value may consist of
 				plain = false
 			}
 		}
